@@ -49,6 +49,9 @@ def removeFirst : List (K × E) → K → Option (E × List (K × E))
 /-- `Adjacent::find_outbound` / `find_inbound`: is there an entry with key `k` -/
 def hasKey (l : List (K × E)) (k : K) : Bool := l.any (fun p => p.1 = k)
 
+/-- an edge as the API reports it: `Edge(source, target, value)` -/
+abbrev Edge (K E : Type) := K × K × E
+
 /-- result of an edge operation -/
 inductive Res (E : Type) where
   | unit | val (e : E) | notFound | exists_ | panic
